@@ -518,4 +518,53 @@ Definition integrate_mc (s : vstate) (m : method) (f : list T -> T) (region : li
   | _ => Exit
   end.
 
+(** ** An integration that its integrand brings to an end early: from its [n]-th evaluation (n >= 1) the integrand throws a C++
+    exception, which leaves Integrate_MC_... and Integrate_MC (no handler on the way) and is caught by the caller.  Nothing is
+    returned; what the call leaves behind is the statics as written up to that evaluation.  ([n <= 0]: the integrand never throws.)
+
+    Plain Monte Carlo and Miser evaluate the integrand exactly ncalls times and own no statics: they are brought to an end iff
+    1 <= n <= ncalls, and leave nothing behind.
+
+    Vegas: after the initialisation blocks every iteration makes  npg * ng^ndim  evaluations (npg per cell of the stratification); the
+    n-th evaluation falls into iteration number (n - 1) / (npg * ng^ndim) (counted from 0).  The iterations before that one have run
+    to their end (accumulation into si, swgt, schi and the refinement of the grid included); of the one under way only statics that
+    every call writes before it reads them have been touched (ti, tsi, fb, f2b, the counters kg, the bins ia, the point x, d, di):
+    the model does not carry those.  Result: [None] and the statics when the call was brought to an end, [Some] value and the statics
+    when it made fewer than n evaluations and so ran to its end. *)
+Definition vegas_throwing (s : vstate) (f : list T -> T) (region : list T) (init ncall : Z) (itmx : nat) (n : Z) : res (option T * vstate) :=
+  let* s1 := vegas_init s region init ncall in
+  let per_iteration := (v_npg s1 * zpow (v_ng s1) (rdim region))%Z in
+  let completed := Z.quot (n - 1) per_iteration in
+  if (n <=? 0) || (Z.of_nat itmx <=? completed) then
+    let* r := vegas_iterations itmx f (vegas_live region s1) region (n0 Ops) 0 in
+    let '(integral, s2, _) := r in
+    Ok (Some integral, vegas_merge region s1 s2)
+  else
+    let* r := vegas_iterations (Z.to_nat completed) f (vegas_live region s1) region (n0 Ops) 0 in
+    let '(_, s2, _) := r in
+    Ok (None, vegas_merge region s1 s2).
+
+Definition integrate_mc_throwing (s : vstate) (m : method) (f : list T -> T) (region : list T) (ncalls n : Z) : res (option T * vstate) :=
+  match m with
+  | M_MonteCarlo => if (1 <=? n) && (n <=? ncalls) then Ok (None, s) else Ok (Some (brute_force f region ncalls), s)
+  | M_Vegas => vegas_throwing s f region 0 ncalls 5 n
+  | M_Miser => if (1 <=? n) && (n <=? ncalls) then Ok (None, s) else let* r := integrate_miser f region ncalls in Ok (Some r, s)
+  | _ => Exit
+  end.
+
+(** ** A call history: the calls of Integrate_MC made one after the other in one process, each with its own generator (seed), some
+    of them brought to an end early.  [hcall]: the stream of the call, method, integrand, region, budget, n as above. *)
+Record hcall := mkH { h_us : Z -> T; h_m : method; h_f : list T -> T; h_region : list T; h_ncalls : Z; h_n : Z }.
 End Model.
+
+Section History.
+Context {T : Type} (Ops : NumOps T).
+(** the statics after the history (calls that end the process end the history: the outcome is then not [Ok]) *)
+Fixpoint run_history (s : @vstate T) (h : list (@hcall T)) : res (@vstate T) :=
+  match h with
+  | [] => Ok s
+  | c :: h' =>
+      let* r := integrate_mc_throwing Ops (h_us c) s (h_m c) (h_f c) (h_region c) (h_ncalls c) (h_n c) in
+      run_history (snd r) h'
+  end.
+End History.
